@@ -233,6 +233,8 @@ class CliFailures(Stream):
                     if could:
                         fails.append(("C09/called-impossible-but-a-version-could-satisfy/" + region, {"requirement": m.group(2), "for example": could[:3]}))
         # chains
+        ends = set()
+        n_chains = 0
         for l in lines[at + 1:]:
             if not l.startswith("  ") or " -> " not in l:
                 if l.startswith("Found the following candidates"):
@@ -268,8 +270,21 @@ class CliFailures(Stream):
                     bad = "%s %s does not state %s" % (prev[0], prev[1], last)
                 elif GL.norm(lastq.name) != key:
                     bad = "chain ends at %s, the failure names %s" % (lastq.name, key)
+                else:
+                    n_chains += 1
+                    ends |= {str(sp) for sp in lastq.specifier}
             if bad:
                 fails.append(("C09/chain-not-real/" + region, {"line": l, "why": bad}))
+        # "with the chains of requirements that lead from the inputs to it": every bound of the requirement the failure names
+        # is the end of some printed chain (otherwise the reader is shown a conflict without the requirer that caused it)
+        if kind in ("unsatisfied", "impossible") and n_chains and not fails:
+            try:
+                want = {str(sp) for sp in GL.P(m.group(2)).specifier}
+            except Exception:
+                want = set()
+            lost = sorted(want - ends)
+            if lost:
+                fails.append(("C09/bound-of-the-failing-requirement-has-no-chain/" + region, {"requirement": m.group(2), "no chain for": lost, "chains end in": sorted(ends)}))
         return fails
 
     def shrink(self, case):
